@@ -744,6 +744,25 @@ func checkReadHeaderInfo(w *World, r *Report, rh *ssa.Function) {
 	}
 	want := `eq("\n", strings.Trim(#0(bufio.Reader.ReadString(param:bufio.Reader, 10)), " "))`
 	r.Check(len(exits) == 1 && exits[0] == want, "M4", "the loop ends at the first blank line (after trimming spaces) and nowhere else", w.Pos(rh.Pos()), strings.Join(exits, " | "))
+	// what is decoded is what was read: every line handed to the buffer is the line exactly as ReadString returned it
+	// (YAML is indentation sensitive: a trimmed continuation line no longer belongs to its key)
+	nBuf := 0
+	for _, bb := range rh.Blocks {
+		for _, in := range bb.Instrs {
+			c, ok := in.(*ssa.Call)
+			if !ok || !inLoop(bb) {
+				continue
+			}
+			cn := calleeName(c)
+			if cn == "bytes.Buffer.WriteString" || cn == "bytes.Buffer.Write" || cn == "strings.Builder.WriteString" {
+				nBuf++
+				got := e.termOf(c.Call.Args[1]).String()
+				wantLine := "#0(bufio.Reader.ReadString(param:bufio.Reader, 10))"
+				r.Check(got == wantLine || got == "convert("+wantLine+")", "M4", "each header line is buffered exactly as read (indentation kept)", w.InstrPos(c), got)
+			}
+		}
+	}
+	r.Check(nBuf >= 1, "M4", "header lines are collected in a buffer", w.Pos(rh.Pos()), fmt.Sprint(nBuf))
 	// yaml error returned
 	okY := false
 	for _, f := range w.funcFamily(rhOuter) {
